@@ -12,9 +12,38 @@
         and has finished (so all output was written and its error stored) — or it returned early without reading
         (media type not registered), in which case nothing was read;
      writer_maximal_schedule_returns : a schedule that cannot be extended has returned from Close.
-   Not modelled (runtime): Go's scheduler and memory model, net/http internals (the response writer / middleware
-   are exercised by the correspondence run only: Content-Type / extension selection, Content-Length removal). *)
-From MV Require Import Base.MvBytes Stream.StreamModel Stream.StreamProofs Stream.StreamPipe.
+   Not modelled (runtime): Go's scheduler and memory model, net/http internals (the underlying ResponseWriter is
+   modelled as "the header map is sent as it is at the first WriteHeader or body Write"). *)
+From MV Require Import Base.MvBytes Stream.StreamModel Stream.StreamProofs Stream.StreamPipe Stream.StreamHttp Stream.StreamHttpProofs.
+
+(* ---- HTTP response writer / middleware (model Stream/StreamHttp.v), for EVERY handler script ----
+   the minifier is picked at the first Write from the Content-Type header, falling back to the type of the request path's
+   extension; the body is what the plain call produces for that media type on the concatenation of the written chunks
+   (however the handler splits them); no Content-Length is sent (unless the handler puts one back after its first
+   Write); Close reports the minifier's error; without a minifier the body passes through unchanged. *)
+Theorem middleware_minifies : forall matchf ext_mt run script mt id,
+  selected ext_mt script = Some mt -> matchf mt = Some id ->
+  body (serve matchf ext_mt run script) = run id mt (written script) /\ z (serve matchf ext_mt run script) = Mini id mt /\ (no_setcl_after_first_write script = true -> sent (serve matchf ext_mt run script) = Some false).
+Proof. exact StreamHttpProofs.middleware_minifies. Qed.
+Print Assumptions middleware_minifies.
+
+Theorem middleware_passes_through : forall matchf ext_mt run script mt,
+  selected ext_mt script = Some mt -> matchf mt = None ->
+  body (serve matchf ext_mt run script) = written script /\ z (serve matchf ext_mt run script) = Pass.
+Proof. exact StreamHttpProofs.middleware_passes_through. Qed.
+Print Assumptions middleware_passes_through.
+
+Theorem middleware_reports_error : forall matchf ext_mt runerr script mt id,
+  selected ext_mt script = Some mt -> matchf mt = Some id ->
+  close_err matchf ext_mt runerr script = runerr id mt (written script).
+Proof. exact StreamHttpProofs.middleware_reports_error. Qed.
+Print Assumptions middleware_reports_error.
+
+Theorem middleware_chunking_irrelevant : forall matchf ext_mt run s1 s2 mt id,
+  selected ext_mt s1 = Some mt -> selected ext_mt s2 = Some mt -> matchf mt = Some id ->
+  written s1 = written s2 -> body (serve matchf ext_mt run s1) = body (serve matchf ext_mt run s2).
+Proof. exact StreamHttpProofs.middleware_chunking_irrelevant. Qed.
+Print Assumptions middleware_chunking_irrelevant.
 
 Theorem chunking_irrelevant : forall sk f on_read_error cs cs' wf, concat cs = concat cs' ->
   entry_minify sk f on_read_error (map Chunk cs) wf = entry_minify sk f on_read_error (map Chunk cs') wf /\
